@@ -10,6 +10,19 @@ from common import *
 
 START, DT, KMAX = 1.0, 0.5, 3           # grid t_k = 1.0 + 0.5 k (exact in binary)
 LITS = [2.0, 3.0, 0.5, 1.5, 4.0, 0.25, 10.0]
+# wave 7: value kinds of a definition — the falsy 0.0 and 0, negative numbers, Python ints (never used as divisors, and no
+# ints as stock initial values: the setter only accepts floats, constants and converters)
+VALS = LITS + [0.0, 0, -1.5, 3, -2]
+VAL_STATS = {}
+
+
+def pick_val(rng, allow_int=True):
+    v = rng.choice(VALS)
+    if isinstance(v, int) and not allow_int:
+        v = float(v)
+    k = ("zero" if v == 0 else "negative" if v < 0 else "positive") + ("-int" if isinstance(v, int) else "")
+    VAL_STATS[k] = VAL_STATS.get(k, 0) + 1
+    return v
 OPSYM = {0: "+", 1: "-", 2: "*", 3: "/"}
 LEANKIND = {"s": "s", "f": "f", "o": "o", "c": "o", "b": "o"}
 # graphical functions (`model.points`): x ascending; table i is the default content of points["p<i>"] for i < NTAB
@@ -434,6 +447,170 @@ def probe_operands_through_memo():
             and all("memoize('w[0]'" in f and "memoize('w[1]'" in f for f in fs[:2]))
 
 
+# ------------------------------------------------------------------ (a3) through the bptk object (wave 7)
+BP_SETS = [["k", "s"], ["s", "k"], ["s"], ["k", "mod.c0", "r x"], ["r x", "s", "k"], ["mod.c0"]]
+BP_CONSTS = [{"mod.c0": 5.0}, {"mod.c0": 0.0, "c 1": 7.0}, {"c 1": -1.5}, {"mod.c0": 3, "c 1": 0}, {}]
+BP_NAMES = ("k", "s", "mod.c0", "c 1", "r x")
+
+
+def bp_model(name="c08bp"):
+    """constants `mod.c0` = 2, `c 1` = 1; k = mod.c0*3 + c 1; stock s' = k (s0 = 1); `r x` = random(0,1) + c 1"""
+    from BPTK_Py import Model
+    from BPTK_Py import sd_functions as sd
+    m = Model(starttime=START, stoptime=START + KMAX * DT, dt=DT, name=name)
+    c0 = m.constant("mod.c0"); c0.equation = 2.0
+    c1 = m.constant("c 1"); c1.equation = 1.0
+    k = m.converter("k"); k.equation = c0 * 3.0 + c1
+    s = m.stock("s"); s.initial_value = 1.0; s.equation = k
+    r = m.converter("r x"); r.equation = sd.random(0, 1) + c1
+    return m
+
+
+def frame_bits(df):
+    cols = {}
+    for c in df.columns:
+        nm = next((n for n in BP_NAMES if c == n or c.endswith("_" + n)), c)
+        cols[nm] = [("nan" if v != v else fbits(v)) for v in df[c]]
+    return cols, [repr(float(t)) for t in df.index]
+
+
+_bp_fresh = {}
+
+
+def bp_fresh(consts):
+    """what a bptk object set up from scratch with these scenario constants reports (deterministic columns)"""
+    key = json.dumps(consts, sort_keys=True)
+    if key not in _bp_fresh:
+        import BPTK_Py
+        b = BPTK_Py.bptk()
+        try:
+            b.register_model(bp_model(), scenario_manager="smBp", scenario={"sc": {"constants": dict(consts)}})
+            df = b.run_scenarios(scenario_managers=["smBp"], scenarios=["sc"], equations=["k", "s", "mod.c0"], series_names={})
+            _bp_fresh[key] = frame_bits(df)
+        finally:
+            b.destroy()
+    return _bp_fresh[key]
+
+
+def bp_run(script, pre_evaluate):
+    """one bptk object, scenario `sc` (constants as registered) next to `base`; script of
+    ('run', equation list) | ('consts', dict) = change the scenario's constants + reset_scenario_cache |
+    ('reset',) | ('mutate',) = overwrite the frame returned by the previous run | ('session', n) = n steps of a session.
+    Returns the first violation of: every run equals a freshly set up bptk with the constants in force; a repeated run and
+    a run with another equation list/order agree on every common column (the stochastic one included) until the next
+    reset; frames handed out earlier do not influence later runs."""
+    import BPTK_Py
+    m = bp_model()
+    if pre_evaluate:                      # the model was used before it was registered
+        for nm in ("k", "s", "r x"):
+            m.evaluate_equation(nm, START + 2 * DT)
+    consts = {"mod.c0": 5.0}
+    b = BPTK_Py.bptk()
+    try:
+        b.register_model(m, scenario_manager="smBp", scenario={"base": {}, "sc": {"constants": dict(consts)}})
+        seen, last = {}, None             # column -> bits since the last reset; last returned frame
+        for i, op in enumerate(script):
+            if op[0] == "run":
+                df = b.run_scenarios(scenario_managers=["smBp"], scenarios=["sc"], equations=list(op[1]), series_names={})
+                cols, idx = frame_bits(df)
+                fcols, fidx = bp_fresh(consts)
+                if idx != fidx:
+                    return {"step": i, "what": "index", "observed": idx, "fresh": fidx}
+                for nm, bits in cols.items():
+                    if nm in fcols and bits != fcols[nm]:
+                        return {"step": i, "what": "column %s differs from a freshly set up bptk with constants %s" % (nm, consts),
+                                "observed": [from_fbits(x) if len(x) == 16 else x for x in bits], "fresh": [from_fbits(x) for x in fcols[nm]]}
+                    if nm in seen and seen[nm] != bits:
+                        return {"step": i, "what": "column %s differs from the previous run of the same scenario (no reset in between)" % nm,
+                                "observed": [from_fbits(x) for x in bits], "previous": [from_fbits(x) for x in seen[nm]]}
+                    seen[nm] = bits
+                last = df
+            elif op[0] == "consts":
+                sc = b.get_scenario("smBp", "sc")
+                for k_, v_ in op[1].items():
+                    sc.constants[k_] = v_
+                    consts[k_] = v_
+                b.reset_scenario_cache(scenario_manager="smBp", scenario="sc")
+                seen = {}
+            elif op[0] == "reset":
+                b.reset_scenario_cache(scenario_manager="smBp", scenario="sc")
+                seen = {}
+            elif op[0] == "mutate" and last is not None:
+                last.iloc[:, :] = 999.0
+            elif op[0] == "session":
+                b.begin_session(scenarios=["sc"], scenario_managers=["smBp"], equations=["k", "s"])
+                for _ in range(op[1]):
+                    b.run_step()
+                b.end_session()           # end_session resets the scenario cache
+                seen = {}
+        return None
+    finally:
+        b.destroy()
+
+
+def bp_show(op):
+    return {"run": lambda: "run_scenarios(equations=%s)" % (list(op[1]),),
+            "consts": lambda: "scenario.constants.update(%s); reset_scenario_cache()" % (op[1],),
+            "reset": lambda: "reset_scenario_cache()", "mutate": lambda: "returned_frame.iloc[:, :] = 999.0",
+            "session": lambda: "session of %d steps" % op[1]}[op[0]]()
+
+
+def bp_cases(chk):
+    fixed = [
+        [("run", ["k", "s"]), ("run", ["k", "s"]), ("run", ["s", "k"]), ("run", ["s"]), ("run", ["r x", "s", "k"]), ("run", ["k", "mod.c0", "r x"])],
+        [("run", ["k", "s"]), ("mutate",), ("run", ["k", "s"]), ("run", ["s"])],
+        [("run", ["s"]), ("consts", {"mod.c0": 0.0, "c 1": 7.0}), ("run", ["s", "k"]), ("consts", {"mod.c0": 3, "c 1": 0}), ("run", ["k", "s"]), ("run", ["s"])],
+        [("run", ["k"]), ("session", 2), ("run", ["k", "s"]), ("consts", {"c 1": -1.5}), ("session", 3), ("run", ["s", "k"])],
+        [("consts", {"mod.c0": 0.0}), ("run", ["k", "s", "mod.c0"]), ("reset",), ("run", ["mod.c0", "s"])],
+    ]
+    out = [(f, pre) for f in fixed for pre in (False, True)]
+    rng = chk.rng.fork("c08-bptk")
+    for _ in range(16 if chk.quick else 150):
+        sc = []
+        for _ in range(rng.range(3, 7)):
+            r = rng.below(10)
+            if r < 5: sc.append(("run", rng.choice(BP_SETS)))
+            elif r < 7: sc.append(("consts", rng.choice(BP_CONSTS)))
+            elif r < 8: sc.append(("reset",))
+            elif r < 9: sc.append(("mutate",))
+            else: sc.append(("session", rng.range(1, 3)))
+        sc.append(("run", rng.choice(BP_SETS)))
+        out.append((sc, rng.chance(1, 2)))
+    return out
+
+
+def run_bptk_stream(chk):
+    first, dist = None, {}
+    for script, pre in bp_cases(chk):
+        for o in script:
+            dist[o[0]] = dist.get(o[0], 0) + 1
+        dist["pre-evaluated model"] = dist.get("pre-evaluated model", 0) + int(pre)
+        chk.case(("bptk", pre, json.dumps(script)), nontrivial=True)
+        if first is None:
+            bad = bp_run(script, pre)
+            if bad is not None:
+                first = (script, pre, bad)
+    chk.cov["bptk_stream"] = dist
+    return first
+
+
+def models_isolated():
+    """process-level state: two models with the same element names in one process"""
+    from BPTK_Py import Model
+    def mk(cv):
+        m = Model(starttime=START, stoptime=START + KMAX * DT, dt=DT, name="iso")
+        c = m.constant("c"); c.equation = cv
+        k = m.converter("k"); k.equation = c * 3.0
+        return m
+    a, b = mk(2.0), mk(5.0)
+    got = [a.evaluate_equation("k", START), b.evaluate_equation("k", START), a.evaluate_equation("k", START + DT), b.evaluate_equation("k", START + DT)]
+    if got != [6.0, 15.0, 6.0, 15.0]:
+        return {"what": "two models with the same element names, evaluated alternately", "observed": got, "expected": [6.0, 15.0, 6.0, 15.0]}
+    # (a plain copy.deepcopy of a Model is not an API path: the lambdas keep pointing at the original; scenarios are cloned by
+    #  ScenarioManagerSd.clone_model from the function strings — exercised by the bptk stream — and isolation of clones is C06's)
+    return None
+
+
 # ------------------------------------------------------------------ probes (mechanism facts)
 def probe_initial_value():
     r = Real(["s", "o"])
@@ -510,7 +687,7 @@ def gen_expr(rng, allowed, depth=2):
         return ("B", 3, a, ("L", rng.choice(LITS)))
     e = term()
     for _ in range(rng.below(depth + 1)):
-        e = ("B", rng.below(2), e, term() if rng.chance(3, 4) else ("L", rng.choice(LITS)))
+        e = ("B", rng.below(2), e, term() if rng.chance(3, 4) else ("L", pick_val(rng)))
     return e
 
 
@@ -530,15 +707,17 @@ def gen_edit(rng, kinds, extra):
     if r < 2 and "s" in kinds:
         s = rng.choice([i for i, k in enumerate(kinds) if k == "s"])
         consts = [i for i, k in enumerate(kinds) if k == "c"]
-        return ("setinit", s, ("R", rng.choice(consts)) if consts and rng.chance(1, 3) else ("L", rng.choice(LITS)))
+        return ("setinit", s, ("R", rng.choice(consts)) if consts and rng.chance(1, 3) else ("L", pick_val(rng, allow_int=False)))
     if r < 4:
         tgt = rng.choice([i for i, k in enumerate(kinds) if k != "s"] + [len(kinds) + j for j in range(extra)])
         al = allowed_refs(kinds, tgt) if tgt < len(kinds) else list(range(len(kinds)))
         if tgt < len(kinds) and kinds[tgt] == "c":      # constants may serve as initial values: keep them literal
-            return ("addeq", tgt, ("L", rng.choice(LITS)))
-        return ("addeq", tgt, gen_expr(rng, [a for a in al if a != tgt]) if rng.chance(2, 3) else ("L", rng.choice(LITS)))
+            return ("addeq", tgt, ("L", pick_val(rng)))
+        return ("addeq", tgt, gen_expr(rng, [a for a in al if a != tgt]) if rng.chance(2, 3) else ("L", pick_val(rng)))
     if kinds[n] == "c":
-        return ("seteq", n, ("L", rng.choice(LITS)))
+        return ("seteq", n, ("L", pick_val(rng)))
+    if rng.chance(1, 6):                       # an element defined by a bare number (0.0 / 0 / negative / int included)
+        return ("seteq", n, ("L", pick_val(rng)))
     return ("seteq", n, gen_expr(rng, [a for a in allowed_refs(kinds, n) if a != n or kinds[n] == "s"]))
 
 
@@ -550,7 +729,7 @@ def gen_history(rng):
     ops = []
     for n in range(nk):           # initial definitions
         if rng.chance(5, 6):
-            ops.append(("seteq", n, ("L", rng.choice(LITS))) if kinds[n] == "c" else
+            ops.append(("seteq", n, ("L", pick_val(rng))) if kinds[n] == "c" else
                        ("seteq", n, gen_expr(rng, [a for a in allowed_refs(kinds, n) if a != n or kinds[n] == "s"])))
     added = False                 # the extra (non-element) equation exists only after its add_equation
     for _ in range(rng.range(3, 12)):
@@ -573,7 +752,7 @@ INIT_KINDS = ["c", "f", "s", "o", "c", "o"]     # + e4 = 7.0 (second constant), 
 INIT_PREFIX = [("seteq", 0, ("L", 2.0)), ("seteq", 1, ("B", 2, ("R", 0), ("L", 1.5))), ("seteq", 2, ("R", 1)),
                ("seteq", 3, ("B", 1, ("B", 2, ("R", 2), ("L", 2.0)), ("R", 0))), ("seteq", 4, ("L", 7.0)),
                ("seteq", 5, ("B", 2, ("R", 4), ("L", 0.5)))]
-INIT_VALUES = [("L", 1.0), ("L", 1.0), ("L", 10.0), ("R", 0), ("R", 4), ("R", 5)]     # float (twice: same value), float, constant, constant, converter
+INIT_VALUES = [("L", 1.0), ("L", 1.0), ("L", 10.0), ("R", 0), ("R", 4), ("R", 5), ("L", 0.0), ("L", -2.5)]     # float (twice: same value), float, constant, constant, converter
 
 
 def init_transition_cases():
@@ -643,7 +822,7 @@ FIX_KINDS = ["c", "f", "s", "o"]        # c, f = max(0, c*1.5), s' = f (init 1.0
 def fixed_alphabet():
     return [("seteq", 0, ("L", 3.0)), ("seteq", 1, ("B", 2, ("R", 0), ("L", 0.5))), ("seteq", 2, ("B", 0, ("R", 1), ("R", 3))),
             ("setinit", 2, ("L", 10.0)), ("setinit", 2, ("R", 0)), ("seteq", 3, ("B", 0, ("R", 2), ("R", 0))),
-            ("addeq", 0, ("L", 4.0)), ("addeq", 1, ("B", 2, ("R", 0), ("L", 2.0))), ("reset",), ("sreset",),
+            ("addeq", 0, ("L", 0.0)), ("addeq", 1, ("B", 2, ("R", 0), ("L", 2.0))), ("reset",), ("sreset",),
             ("eval", 3, 2), ("eval", 2, 1), ("eval", 1, 0)]
 
 
@@ -1204,6 +1383,9 @@ def _run(chk, scratch):
     xamb, xdiff, xreq, xmodel, xexp, xmeta = run_conc(chk, facts, scratch)
     xnorm = xmile_normalisation(scratch)
     aggbad = run_agg(chk)
+    bpbad = run_bptk_stream(chk)
+    isobad = models_isolated()
+    chk.cov["definition_value_kinds"] = dict(VAL_STATS)
     chk.cov["rule"] = (f"(a) all histories FIX_PREFIX + w, w in alphabet^{L} (13 edit/reset/evaluate operations on a 4-element model), plus seeded random "
                        "histories on random models of 3..6 elements: every evaluation result and the memo contents after every evaluation are compared "
                        "with the Lean model, and every element at every grid point with a freshly built model; non-trivial = some edit follows an evaluation. "
@@ -1270,6 +1452,16 @@ def _run(chk, scratch):
     elif not facts["operands"]:
         chk.add_finding("stale-aggregate-operand", "probe: x = w.arr_sum(); w[1] = 5.0: the function string of x changed or its value did not follow",
                         {"kind": "agg", "ops": [("eval", "agg sum w", 0), ("wset", 1, 7.0)]})
+    if bpbad is not None:
+        script, pre, bad = bpbad
+        small = shrink(script, lambda c_: bp_run(c_, pre) is not None)
+        bad = bp_run(small, pre)
+        chk.add_finding("stale-or-unrepeatable-run",
+                        f"bptk object with scenario constants {{'mod.c0': 5.0}}{' (model evaluated before it was registered)' if pre else ''}: "
+                        f"{[bp_show(o) for o in small]} -> step {bad['step']}: {bad['what']}: {bad.get('observed')} vs {bad.get('fresh', bad.get('previous'))}",
+                        {"kind": "bptk", "script": small, "pre_evaluate": pre, "violation": bad})
+    if isobad is not None:
+        chk.add_finding("memo-shared-between-models", f"{isobad}", {"kind": "isolated", "observed": isobad})
     if xnorm is not None:
         chk.add_finding("xmile-memo-key-not-normalised", f"generated memoize, start 0.3 dt 0.1: {xnorm}",
                         {"kind": "xnorm", "observed": xnorm})
@@ -1320,6 +1512,16 @@ def replay(path):
                 break
         if not bad:
             print("no ambiguity under the stored schedule (nor under the 12 single pre-emptions tried)")
+        return 1 if bad else 0
+    if r.get("kind") == "bptk":
+        script = [(o[0], list(o[1])) if o[0] == "run" else tuple(o) for o in r["script"]]
+        print("script:", [bp_show(o) for o in script])
+        bad = bp_run(script, r.get("pre_evaluate", False))
+        print("violation on the current tree:", bad)
+        return 1 if bad else 0
+    if r.get("kind") == "isolated":
+        bad = models_isolated()
+        print("models isolated:", bad or "yes")
         return 1 if bad else 0
     if r.get("kind") == "agg":
         ops = [_tuplify(o) for o in r["ops"]]
